@@ -214,3 +214,115 @@ def run(ctx: Context) -> None:  # noqa: F811
     _core_run3(ctx)
     ctx.rep.rule("C13.R8", "END_STREAM on HEADERS and the early return of the body routine are the same predicate over the same object (shared with C03.R4)")
     _end_stream_agreement(ctx)
+
+
+
+H2_QUEUE_OPS = {"send_headers", "send_data", "end_stream", "increment_flow_control_window", "acknowledge_received_data", "initiate_connection", "reset_stream",
+                "update_settings", "push_stream", "prioritize", "ping"}
+
+
+def flush_before_wait(ctx: Context, rule: str, why: str) -> None:
+    """h2 only QUEUES frames; bytes reach the peer when `data_to_send()` is written.  A task that goes on to read from the network while frames it queued are still
+    unwritten waits for an answer to something the peer has never seen (a WINDOW_UPDATE for a stream whose HEADERS were not sent, a response to an un-ended request).
+    Forward may-analysis of one bit (`frames queued and not yet written`) over the CFGs of the HTTP/2 connection class, with per-method summaries for both entry
+    states: no network read is reached with the bit set."""
+    rep = ctx.rep
+    rep.rule(rule, "HTTP/2: no network read is reached while frames queued on the h2 state machine by the same task are still unwritten - " + why)
+    n_reads = 0
+    for tree, N in trees(ctx):
+        h2 = N.cls("http2", "AsyncHTTP2Connection")
+        memo: dict[tuple[str, bool], tuple[bool, list[tuple[FuncInfo, ast.AST, tuple[str, ...]]]]] = {}
+        busy: set[tuple[str, bool]] = set()
+
+        def calls_in(n_ast: ast.AST) -> list[ast.Call]:
+            a = n_ast
+            if isinstance(a, ast.withitem):
+                a = a.context_expr
+            elif isinstance(a, (ast.If, ast.While)):
+                a = a.test
+            elif isinstance(a, (ast.For, ast.AsyncFor)):
+                a = a.iter
+            elif isinstance(a, (ast.ExceptHandler, ast.Try, ast.FunctionDef, ast.AsyncFunctionDef)):
+                return []
+            cs = [c for c in ast.walk(a) if isinstance(c, ast.Call)]
+            return sorted(cs, key=lambda c: (getattr(c, "end_lineno", 0), getattr(c, "end_col_offset", 0)))      # inner calls complete first
+
+        def summary(f: FuncInfo, dirty_in: bool, stack: tuple[str, ...]) -> tuple[bool, list]:
+            key = (f.name, dirty_in)
+            if key in memo:
+                return memo[key]
+            if key in busy:
+                return dirty_in, []
+            busy.add(key)
+            cfg = ctx.cfg(f)
+            viol: list = []
+
+            def step(node, dirty: bool, record: bool) -> bool:
+                if node.ast is None or node.kind not in ("stmt", "with_enter", "test", "loop", "for", "while", "if") and not isinstance(node.ast, (ast.stmt, ast.withitem)):
+                    return dirty
+                if node.kind in ("with_exit", "with_exc_exit"):
+                    return dirty
+                for c in calls_in(node.ast):
+                    fn = norm(c.func)
+                    last = (chain(c.func) or [""])[-1]
+                    if fn.startswith("self._h2_state.") and last in H2_QUEUE_OPS:
+                        dirty = True
+                    elif fn == "self._network_stream.write":
+                        dirty = False
+                    elif fn == "self._network_stream.read":
+                        if dirty and record:
+                            viol.append((f, c, stack + (f.short,)))
+                    elif fn.startswith("self.") and fn.count(".") == 1 and last in h2.methods and h2.methods[last] is not f:
+                        d_out, v = summary(h2.methods[last], dirty, stack + (f.short,))
+                        if record:
+                            viol.extend(v)
+                        dirty = d_out
+                return dirty
+
+            state = cfg.solve(dirty_in, lambda n, s, e: None if e.kind == "exc" else step(n, s, False), lambda a, b: a or b, bottom=None)
+            for n in cfg.nodes:
+                if n.id in state:
+                    step(n, state[n.id], True)
+            d_exit = bool(state.get(cfg.exit.id, False))
+            busy.discard(key)
+            # de-duplicate witnesses
+            seen, uniq = set(), []
+            for v in viol:
+                k = (v[0].qual, getattr(v[1], "lineno", 0), v[2])
+                if k not in seen:
+                    seen.add(k)
+                    uniq.append(v)
+            memo[key] = (d_exit, uniq)
+            return memo[key]
+
+        reads = [c for f in h2.methods.values() for c in own_nodes(f.node) if isinstance(c, ast.Call) and norm(c.func) == "self._network_stream.read"]
+        n_reads += len(reads)
+        entries = [N.t("handle_async_request"), "_receive_response_body", "_response_closed", N.t("aclose")]
+        allv: list = []
+        for en in entries:
+            f = h2.methods.get(en)
+            if f is None:
+                continue
+            _, v = summary(f, False, ())
+            allv.extend(v)
+        seen2 = set()
+        for f, c, stack in allv:
+            k = (f.qual, c.lineno)
+            if k in seen2:
+                continue
+            seen2.add(k)
+            rep.ob(rule, fkey(tree, f, f"read-with-frames-queued:{stack[0].split('.')[-1] if stack else f.name}"), False, where(f, c),
+                   f"`{ast.unparse(c)[:60]}` can be reached (via {' > '.join(s.split('.')[-1] for s in stack)}) while frames this task queued on the h2 state machine have not been written: "
+                   "the client then waits for the peer's reaction (WINDOW_UPDATE, response) to frames the peer has never received - the transfer starves")
+        if not allv:
+            rep.ob(rule, fkey(tree, h2.methods[N.t("handle_async_request")], "flush-before-wait"), True, where(h2.methods[N.t("handle_async_request")]),
+                   "on every path of the request / response-body / close routines the queued frames are written before the task reads from the network")
+    rep.floor(rule, "network reads of the HTTP/2 connection (both trees)", n_reads, 2)
+
+
+_core_run_r9 = run
+
+
+def run(ctx: Context) -> None:  # noqa: F811
+    _core_run_r9(ctx)
+    flush_before_wait(ctx, "C13.R9", "an upload never starves: the peer opens the window only for streams it has seen")
